@@ -7,7 +7,7 @@ import re
 from ..core import guards
 from ..core import pyfacts as pf
 from ..core import sibling
-from ..core.match import call_arg, txt
+from ..core.match import canon, call_arg, txt
 from ..core.source import AnchorMissing
 from .common import ACHAIN, GOOFIT, MDECAY, ckey, enclosing, fn, returns, stmt_of, where
 
@@ -60,14 +60,14 @@ def c18_1(ctx, ss):
         ctx.violation("C18.1", k + " :: element", where(ff, rets[0]), f"each permutation is `{txt(v.elt)[:60]}`, not the product element itself")
     if ok_prod:
         cands = it.args[0].value
-        want = "[[__elem__(enumerate(final_states))[0] for i, v in enumerate(final_states) if __elem__(enumerate(final_states))[1] == __elem__(list(iter_flatten(self.structure)))] for name in list(iter_flatten(self.structure))]"
+        want = canon("[[__elem__(enumerate(final_states))[0] for i, v in enumerate(final_states) if __elem__(enumerate(final_states))[1] == __elem__(list(iter_flatten(self.structure)))] for name in list(iter_flatten(self.structure))]")
         okc = txt(cands) == want
         (ctx.holds if okc else ctx.violation)("C18.1", k + " :: candidates", where(ff, rets[0]),
                                               "candidates of each flattened final-state particle = positions of equal particles in the event type, for every particle in order" if okc
                                               else f"candidate positions are `{txt(cands)[:200]}`")
     sf, sflow = fn(ss, MDECAY, "ModelDecay.structure")
     r = returns(sf)
-    oks = sorted(txt(x.value) for x in r) == sorted(["[d.structure for d in self.daughters]", "self.particle"])
+    oks = sorted(txt(x.value) for x in r) == sorted([canon("[d.structure for d in self.daughters]"), "self.particle"])
     for x in r:
         conds = [(txt(e), pol) for kind, e, pol in guards.path_conditions(sf.node, x) if kind == "if"]
         if txt(x.value).startswith("[") and conds != [("self.daughters", True)]:
